@@ -1142,6 +1142,16 @@ func (l *Ledger) Truncate(utxovmLastID []byte) error {
 	// 逐个分支裁剪到目标高度
 	for _, branchTip := range branchTips {
 		deletedBlockid := []byte(branchTip)
+		// 该分支在目标高度上的祖先区块成为这个分支新的末端(主干分支上就是裁剪目标本身)
+		newBranchTip := block.Blockid
+		for ancestor, aErr := l.fetchBlock(deletedBlockid); aErr == nil; ancestor, aErr = l.fetchBlock(ancestor.PreHash) {
+			if ancestor.Height <= block.Height {
+				if ancestor.Height == block.Height {
+					newBranchTip = ancestor.Blockid
+				}
+				break
+			}
+		}
 		// 裁剪到目标高度
 		err = l.removeBlocks(deletedBlockid, block.Blockid, batchWrite)
 		if err != nil {
@@ -1150,7 +1160,7 @@ func (l *Ledger) Truncate(utxovmLastID []byte) error {
 			return err
 		}
 		// 更新分支高度信息
-		err = l.updateBranchInfo(block.Blockid, deletedBlockid, block.Height, batchWrite)
+		err = l.updateBranchInfo(newBranchTip, deletedBlockid, block.Height, batchWrite)
 		if err != nil {
 			l.xlog.Warn("truncate failed when calling updateBranchInfo", "err", err)
 			return err
